@@ -162,14 +162,14 @@ theorem FlowOK.popC {cm sm cm' : MuxL} {f : Flow} (h : FlowOK cm sm f) (fr : Fra
   refine ⟨?_, h.down, h.cchan, h.schan⟩
   rw [upSrc_setOut cm cm']
   exact h.up.pop fr cm'.out (by rw [upSrc_out]; exact he) hf.notData
-    (fun hc => by rw [hf.2] at hc; cases hc)
+    (fun hc => by rw [hf.2] at hc; cases hc) (fun hh => by rw [hf.notEof] at hh; cases hh)
 
 theorem FlowOK.popS {cm sm sm' : MuxL} {f : Flow} (h : FlowOK cm sm f) (fr : Frame)
     (he : sm.out = fr :: sm'.out) (hf : Foreign f.chan fr) : FlowOK cm sm' f := by
   refine ⟨h.up, ?_, h.cchan, h.schan⟩
   rw [downSrc_setOut sm sm']
   exact h.down.pop fr sm'.out (by rw [downSrc_out]; exact he) hf.notData
-    (fun hc => by rw [hf.2] at hc; cases hc)
+    (fun hc => by rw [hf.2] at hc; cases hc) (fun hh => by rw [hf.notEof] at hh; cases hh)
 
 theorem foreign_of_cmd {c : Nat} {fr : Frame} (h : isStreamCmd fr.cmd = false) : Foreign c fr := by
   simp only [isStreamCmd, Bool.or_eq_false_iff, beq_eq_false_iff_ne] at h
@@ -430,7 +430,7 @@ theorem FlowOK.fresh (cm sm cm' : MuxL) (c : Nat) (p : ProxyS)
   refine ⟨?_, ?_, ?_, ?_⟩
   · refine { pre := ?_, exact := ?_, shutOk := ?_, conn := ?_, fresh := ?_, clean := ?_, eofNM := ?_,
              gone := ?_, dead := ?_, srcBuf := ?_, snkBuf := ?_, srcEv := ?_, snkEv := ?_, goneShut := ?_,
-             nl1 := ?_, stopOk := ?_, connOk := ?_ }
+             nl1 := ?_, stopOk := ?_, connOk := ?_, eofSeen := ?_ }
     all_goals simp only [upSrc, upSink, SV, goneSink]
     · exact List.prefix_refl _
     · right; simp [hdo]
@@ -458,9 +458,11 @@ theorem FlowOK.fresh (cm sm cm' : MuxL) (c : Nat) (p : ProxyS)
       refine ⟨?_, trivial⟩
       rw [hcm, nConnect_append, k1, nConnect_single]
       simp [isConnect]
+    · intro nm
+      rcases nm.2 with h' | ⟨h', _, _⟩ <;> cases h'
   · refine { pre := ?_, exact := ?_, shutOk := ?_, conn := ?_, fresh := ?_, clean := ?_, eofNM := ?_,
              gone := ?_, dead := ?_, srcBuf := ?_, snkBuf := ?_, srcEv := ?_, snkEv := ?_, goneShut := ?_,
-             nl1 := ?_, stopOk := ?_, connOk := ?_ }
+             nl1 := ?_, stopOk := ?_, connOk := ?_, eofSeen := ?_ }
     all_goals simp only [downSrc, downSink, KV, goneSrc]
     · exact List.prefix_refl _
     · right; simp [dataOf_noStream c _ h2]
@@ -479,6 +481,9 @@ theorem FlowOK.fresh (cm sm cm' : MuxL) (c : Nat) (p : ProxyS)
     · intro _ h; cases h
     · intro hh; rw [hasStop_noStream c _ h2] at hh; cases hh
     · exact Or.inl k2
+    · intro nm
+      have := nm.1
+      cases this
   · intro q hq
     simp only [Option.some.injEq] at hq
     subst hq; exact ⟨rfl, rfl⟩
